@@ -13,7 +13,7 @@ PROPS = {
     'C01': {
         'correspondence': CORR_L1,
         'coq': ['theories/Props/C01.vo', 'theories/Inst/C01_now.vo'],
-        'profiles': [prof('core', (60, 15), (1500, 60)), prof('sync', (40, 15), (800, 60))],
+        'profiles': [prof('core', (60, 15), (1500, 60)), prof('sync', (40, 15), (800, 60)), prof('fut', (50, 15), (1000, 60)), prof('fsync', (30, 10), (600, 40)), prof('pipein', (20, 10), (400, 40), extra=['--max-steps', '30000'])],
         'monitors': ['C01'], 'liveness': False, 'panics': False,
         'trusted_base': L1_TRUST,
         'assumptions': ['future-based operations are covered by the run-time occupancy monitor only, not yet by a theorem'],
@@ -37,7 +37,7 @@ PROPS = {
     'C04': {
         'correspondence': CORR_L1,
         'coq': ['theories/Props/C04.vo', 'theories/Inst/C04_now.vo', 'theories/L1h/PropsC04.vo', 'theories/L1h/Inst.vo'],
-        'profiles': [prof('sync', (80, 20), (2000, 80)), prof('core', (40, 10), (800, 40)), prof('pool', (30, 10), (600, 40))],
+        'profiles': [prof('sync', (80, 20), (2000, 80)), prof('core', (40, 10), (800, 40)), prof('pool', (30, 10), (600, 40)), prof('fut', (40, 15), (800, 60), extra=['--max-pool', '1'])],
         'monitors': ['C04'], 'liveness': True, 'panics': True,
         'trusted_base': L1_TRUST,
         'assumptions': ['returns-for-pool-size-0 is exercised under the controlled runtime only (theorem C04_sync_returns_pool_partial needs a maximum >= 1); nested sync from inside jobs is exercised by the profiles, not modelled'],
@@ -45,7 +45,7 @@ PROPS = {
     'C05': {
         'correspondence': CORR_L1,
         'coq': ['theories/L1h/PropsC05.vo', 'theories/L1h/Inst.vo'],
-        'profiles': [prof('drop', (80, 20), (2000, 80)), prof('core', (30, 10), (600, 40))],
+        'profiles': [prof('drop', (80, 20), (2000, 80)), prof('core', (30, 10), (600, 40)), prof('pipein', (40, 15), (600, 60), extra=['--max-steps', '30000']), prof('pipedrop', (30, 10), (400, 40), extra=['--max-steps', '30000'])],
         'monitors': ['C05'], 'liveness': True, 'panics': True,
         'trusted_base': L1_TRUST + ['drop is modelled as what the code does: a final sync whose closure frees the value (fact drop_is_sync_free)'],
         'assumptions': ['freed-exactly-once and no-use-after-free are observed by the payload monitors (drop counter, dead flag) on the real crate; the theorem gives the ordering that makes them true'],
@@ -64,6 +64,14 @@ PROPS = {
         'monitors': ['C09'], 'liveness': True, 'panics': False,
         'trusted_base': L1_TRUST,
         'assumptions': [],
+    },
+    'C10': {
+        'correspondence': CORR_L1,
+        'coq': ['theories/L1g/PropsC10.vo', 'theories/L1g/Inst.vo'],
+        'profiles': [prof('gate', (80, 20), (2000, 80)), prof('pool', (40, 10), (800, 40))],
+        'monitors': ['C10', 'C03', 'C04'], 'liveness': True, 'panics': True,
+        'trusted_base': L1_TRUST + ['a blocked operation is an actor that never moves while at its closure-run frame (frozen set B)'],
+        'assumptions': ['frozen actors only at the three closure-run frames; a suspended future-based operation (queue parked, no thread occupied) is covered by the L2/wake profiles, not by this theorem'],
     },
     'C11': {
         'correspondence': {'kind': 'pipein', 'profiles': [prof('pipein', (40, 5), (400, 10)), prof('progs:pipein_extra.progs', (0, 10), (0, 60))]},
